@@ -91,7 +91,7 @@ def d10 : List Act :=
    .h (.hCas true), .h (.hRd true), .h (.hWr true), .h (.hGet 1), .h (.hConn false), .h (.hLock false),
    .t .tC2, .t (.t4a 2),
    .b .cbEnterU, .b .cbExitU, .b .cbEnterF, .b (.cbF1 true), .b (.cbF2 true), .b (.cbF3 1), .b (.cbF3b 0), .b .cbF3c,
-   .b (.cbF4 0), .b .cbF4b, .b .cbFx]
+   .b (.cbF4n 0), .b .cbF4b, .b .cbFx]
 
 theorem D10_witness : ∃ s, runOld (init true true true false) d10 = some s ∧
     s.hupWon = true ∧ s.ocEnds = 1 ∧ s.cbDone = 1 ∧ s.discRuns = 0 ∧ s.hPc = 99 := by
